@@ -167,6 +167,9 @@ type SimNode struct {
 	pingPayload  []byte
 	pingDone     []string
 
+	gen         int
+	staleEvents []evRec
+	shutAt      time.Duration
 	created  bool
 	crashed  bool
 	leftCalled bool
@@ -246,6 +249,26 @@ func (n *SimNode) event(kind string, nd *Node) {
 func (n *SimNode) NotifyJoin(nd *Node)   { n.event("join", nd) }
 func (n *SimNode) NotifyLeave(nd *Node)  { n.event("leave", nd) }
 func (n *SimNode) NotifyUpdate(nd *Node) { n.event("update", nd) }
+
+// instEvents is the per-instance EventDelegate: callbacks of a previous
+// (crashed / shut down) instance of the same node name are recorded apart.
+type instEvents struct {
+	n   *SimNode
+	gen int
+}
+
+func (d *instEvents) fwd(kind string, nd *Node) {
+	if d.gen != d.n.gen {
+		d.n.mu.Lock()
+		d.n.staleEvents = append(d.n.staleEvents, evRec{T: d.n.sim.Now(), Kind: kind, Name: nd.Name})
+		d.n.mu.Unlock()
+		return
+	}
+	d.n.event(kind, nd)
+}
+func (d *instEvents) NotifyJoin(nd *Node)   { d.fwd("join", nd) }
+func (d *instEvents) NotifyLeave(nd *Node)  { d.fwd("leave", nd) }
+func (d *instEvents) NotifyUpdate(nd *Node) { d.fwd("update", nd) }
 
 // --- Delegate
 
@@ -397,7 +420,8 @@ func (c *Cluster) buildConfig(n *SimNode, cp CfgPlan) *Config {
 		conf.Keyring = kr
 	}
 	conf.Logger = log.New(n, "", 0)
-	conf.Events = n
+	n.gen++
+	conf.Events = &instEvents{n, n.gen}
 	conf.Delegate = n
 	conf.Conflict = conflictDel{n}
 	conf.Ping = pingDel{n}
